@@ -54,14 +54,15 @@ theorem honest_proof_verifies : verify_complete_statement H := by
   intro F hn hnz hlive L targets hashes junk hnd hc
   exact verify_complete hn hnz hlive hnd hc junk
 
-/-- the same, from the hypotheses of the soundness theorem C03 (`CR`) -/
-theorem honest_proof_verifies_CR {F : Forest H} (cr : CR H) (hn : F.numLeaves ≤ 2 ^ 63)
+/-- the same under the bundled hypothesis `NZ` (parent hashes are never the zero hash; the name of
+the theorem is historical: it used to take the collision-freeness bundle `CR` of C03) -/
+theorem honest_proof_verifies_CR {F : Forest H} (nz : NZ H) (hn : F.numLeaves ≤ 2 ^ 63)
     (hlive : ∀ l ∈ F.liveLeaves, l ≠ (zero : H)) {L : List H} {targets : List Pos}
     {proofHashes : List H} (hnd : L.Nodup) (hc : F.canon L = some (targets, proofHashes)) :
     verify (BitVec.ofNat 64 F.numLeaves) F.roots L
       (targets.map (fun p => encU F.rows p.1 p.2)) proofHashes =
       .ok (touchedIdx F.numLeaves targets) := by
-  have := honest_proof_verifies F hn cr.nonzero hlive L targets proofHashes [] hnd hc
+  have := honest_proof_verifies F hn nz.nonzero hlive L targets proofHashes [] hnd hc
   simpa using this
 
 /-- `canon` is defined exactly on lists of live leaves: (⇐) -/
@@ -203,7 +204,7 @@ theorem canon1 : F.canon [T.leaf 2, .leaf 0] = some ([(0, 2), (1, 0)], [T.leaf 3
 tree 0 (the tree on row 2) touched -/
 example : verify (BitVec.ofNat 64 F.numLeaves) F.roots [T.leaf 2, .leaf 0] [2#64, 8#64] [T.leaf 3]
     = .ok [0] :=
-  honest_proof_verifies_CR cr (Nat.le_of_lt small) live_nonzero (by decide) canon1
+  honest_proof_verifies_CR cr.toNZ (Nat.le_of_lt small) live_nonzero (by decide) canon1
 
 /-- the same request in the other order -/
 example : F.canon [T.leaf 0, .leaf 2] = some ([(1, 0), (0, 2)], [T.leaf 3]) :=
